@@ -1,4 +1,5 @@
 import BreezyVerif.Lemmas.C06
+import BreezyVerif.Lemmas.C06Cycles
 /-
 C06 — aborted and suspended write groups.  Theorems about the write-group state
 machine `step` / `exec` of Model/C06 for every repository state, every format
@@ -146,6 +147,352 @@ theorem suspend_resume_commit_eq_commit_partial (fmt : Fmt) (r : Repo) (g : Grou
     simp only [hp3, htoks]
     by_cases he : g.fresh.isEmpty = true <;> simp [he, List.append_assoc]
 
+/-! ### what is refused, exactly -/
+
+/-- what `_check_new_inventories` demands of a write group (`all`) in a repository
+whose own records — listed packs and the group, no fallbacks — are `own` -/
+structure GroupComplete (own all : Pack) : Prop where
+  /-- every new revision has its inventory -/
+  inv : ∀ i ∈ newRevIds all, hasKey own ⟨.inv, i⟩ = true
+  /-- the chk root pages of the new inventories and of their present parent-only inventories are there -/
+  roots : ∀ c ∈ rootsOf own (newRevIds all) ++ rootsOf own (parentOnlyInvs own all), hasKey own ⟨.chk, c⟩ = true
+  /-- every text named by a new root page and not by a parent-only inventory's page is there -/
+  texts : ∀ t ∈ neededTexts own all, hasKey own ⟨.text, t⟩ = true
+
+theorem inventoryProblems_false_iff (own all : Pack) :
+    inventoryProblems own all = false ↔ GroupComplete own all := by
+  simp only [inventoryProblems]
+  constructor
+  · intro h
+    by_cases h1 : (newRevIds all).any (fun i => !hasKey own ⟨.inv, i⟩) = true
+    · simp [h1] at h
+    · by_cases h2 : (rootsOf own (newRevIds all) ++ rootsOf own (parentOnlyInvs own all)).any
+          (fun c => !hasKey own ⟨.chk, c⟩) = true
+      · simp [h1, h2] at h
+      · simp only [h1, h2, Bool.false_eq_true, if_false] at h
+        refine ⟨?_, ?_, ?_⟩
+        · intro i hi
+          simp only [List.any_eq_true, Bool.not_eq_true', not_exists, not_and, Bool.not_eq_false] at h1
+          exact h1 i hi
+        · intro c hc
+          simp only [List.any_eq_true, Bool.not_eq_true', not_exists, not_and, Bool.not_eq_false] at h2
+          exact h2 c hc
+        · intro t ht
+          have := List.any_eq_false.mp h t ht
+          simpa using this
+  · rintro ⟨a, b, c⟩
+    have h1 : (newRevIds all).any (fun i => !hasKey own ⟨.inv, i⟩) = false := by
+      apply List.any_eq_false.mpr; intro i hi; simp [a i hi]
+    have h2 : (rootsOf own (newRevIds all) ++ rootsOf own (parentOnlyInvs own all)).any
+        (fun c => !hasKey own ⟨.chk, c⟩) = false := by
+      apply List.any_eq_false.mpr; intro x hx; simp [b x hx]
+    simp only [h1, h2, Bool.false_eq_true, if_false]
+    apply List.any_eq_false.mpr; intro t ht; simp [c t ht]
+
+/-- **A commit is accepted exactly when the group is complete**: the object
+remembers no missing compression parent, no resumed pack lacks one, and (CHK
+formats) every new revision comes with its inventory, the chk root pages and the
+texts its inventory introduces.  Otherwise it is refused with `BzrCheckError`
+(and then nothing changes: `refused_commit_noop`). -/
+theorem commit_accepted_iff (fmt : Fmt) (r : Repo) (g : Group) (h : r.wg = some g) :
+    (step fmt r .commit).2 = .ok ↔
+      (r.stale = [] ∧
+       missingCompressionParent (r.packs.flatten ++ groupRecs g) g.resumed.flatten = false ∧
+       (fmt.checkInv = true → GroupComplete (r.packs.flatten ++ groupRecs g) (groupRecs g))) := by
+  rw [step_commit fmt r g h]
+  have href : refuses fmt r g = false ↔
+      (r.stale = [] ∧
+       missingCompressionParent (r.packs.flatten ++ groupRecs g) g.resumed.flatten = false ∧
+       (fmt.checkInv = true → GroupComplete (r.packs.flatten ++ groupRecs g) (groupRecs g))) := by
+    simp only [refuses, Bool.or_eq_false_iff, Bool.and_eq_false_iff, Bool.not_eq_false', List.isEmpty_iff]
+    constructor
+    · rintro ⟨⟨h1, h2⟩, h3⟩
+      refine ⟨h1, h2, fun hc => ?_⟩
+      rcases h3 with h3 | h3
+      · rw [hc] at h3; cases h3
+      · exact (inventoryProblems_false_iff _ _).mp h3
+    · rintro ⟨h1, h2, h3⟩
+      refine ⟨⟨h1, h2⟩, ?_⟩
+      by_cases hc : fmt.checkInv = true
+      · exact Or.inr ((inventoryProblems_false_iff _ _).mpr (h3 hc))
+      · exact Or.inl (by simpa using hc)
+  rw [← href]
+  by_cases hr : refuses fmt r g = true
+  · simp [hr]
+  · simp [hr]
+
+/-- the accepted direction, spelled out: whatever a CHK-format commit accepts is complete -/
+theorem accepted_commit_complete (fmt : Fmt) (hfmt : fmt.checkInv = true) (r : Repo) (g : Group) (h : r.wg = some g)
+    (hok : (step fmt r .commit).2 = .ok) :
+    GroupComplete (r.packs.flatten ++ groupRecs g) (groupRecs g) :=
+  ((commit_accepted_iff fmt r g h).mp hok).2.2 hfmt
+
+theorem refused_of_problems (fmt : Fmt) (hfmt : fmt.checkInv = true) (r : Repo) (g : Group) (h : r.wg = some g)
+    (hp : inventoryProblems (r.packs.flatten ++ groupRecs g) (groupRecs g) = true) :
+    step fmt r .commit = (r, .err .check) := by
+  rw [step_commit fmt r g h]
+  have : refuses fmt r g = true := by simp [refuses, hfmt, hp]
+  rw [if_pos this]
+
+/-- **a new revision without its inventory is refused** (the repository is not changed) -/
+theorem missing_inventory_refused (fmt : Fmt) (hfmt : fmt.checkInv = true) (r : Repo) (g : Group) (h : r.wg = some g)
+    (i : Nat) (hrev : ∃ rec ∈ groupRecs g, rec.key = ⟨.rev, i⟩)
+    (hinv : ∀ rec ∈ r.packs.flatten ++ groupRecs g, rec.key ≠ ⟨.inv, i⟩) :
+    step fmt r .commit = (r, .err .check) := by
+  apply refused_of_problems fmt hfmt r g h
+  have hi : i ∈ newRevIds (groupRecs g) := by
+    obtain ⟨rec, hm, hk⟩ := hrev
+    simp only [newRevIds, List.mem_map, List.mem_filter]
+    exact ⟨rec, ⟨hm, by simp [hk]⟩, by simp [hk]⟩
+  have hno : hasKey (r.packs.flatten ++ groupRecs g) ⟨.inv, i⟩ = false := by
+    simp only [hasKey, List.any_eq_false, beq_iff_eq]
+    intro rec hm; exact hinv rec hm
+  simp only [inventoryProblems]
+  have : (newRevIds (groupRecs g)).any (fun i => !hasKey (r.packs.flatten ++ groupRecs g) ⟨.inv, i⟩) = true :=
+    List.any_eq_true.mpr ⟨i, hi, by simp [hno]⟩
+  simp [this]
+
+/-- **a new inventory whose chk root page is absent is refused** -/
+theorem missing_chk_root_refused (fmt : Fmt) (hfmt : fmt.checkInv = true) (r : Repo) (g : Group) (h : r.wg = some g)
+    (i c : Nat) (irec : Rec) (hi : i ∈ newRevIds (groupRecs g))
+    (hinv : invRec (r.packs.flatten ++ groupRecs g) i = some irec) (hc : c ∈ irec.roots)
+    (hno : hasKey (r.packs.flatten ++ groupRecs g) ⟨.chk, c⟩ = false) :
+    step fmt r .commit = (r, .err .check) := by
+  apply refused_of_problems fmt hfmt r g h
+  have hroot : c ∈ rootsOf (r.packs.flatten ++ groupRecs g) (newRevIds (groupRecs g)) := by
+    simp only [rootsOf, List.mem_flatMap]
+    exact ⟨i, hi, by simp [hinv, hc]⟩
+  simp only [inventoryProblems]
+  split
+  · rfl
+  · have : (rootsOf (r.packs.flatten ++ groupRecs g) (newRevIds (groupRecs g)) ++
+        rootsOf (r.packs.flatten ++ groupRecs g) (parentOnlyInvs (r.packs.flatten ++ groupRecs g) (groupRecs g))).any
+        (fun c => !hasKey (r.packs.flatten ++ groupRecs g) ⟨.chk, c⟩) = true :=
+      List.any_eq_true.mpr ⟨c, List.mem_append_left _ hroot, by simp [hno]⟩
+    simp [this]
+
+/-- **a new revision whose inventory names a text that is neither present nor
+named by a parent-only inventory is refused** -/
+theorem missing_text_refused (fmt : Fmt) (hfmt : fmt.checkInv = true) (r : Repo) (g : Group) (h : r.wg = some g)
+    (i c t : Nat) (irec crec : Rec) (hi : i ∈ newRevIds (groupRecs g))
+    (hinv : invRec (r.packs.flatten ++ groupRecs g) i = some irec) (hc : c ∈ irec.roots)
+    (hpage : (r.packs.flatten ++ groupRecs g).find? (·.key == ⟨.chk, c⟩) = some crec) (ht : t ∈ crec.items)
+    (hnew : c ∉ rootsOf (r.packs.flatten ++ groupRecs g)
+      (parentOnlyInvs (r.packs.flatten ++ groupRecs g) (groupRecs g)))
+    (hnot : t ∉ itemsOf (r.packs.flatten ++ groupRecs g) (rootsOf (r.packs.flatten ++ groupRecs g)
+      (parentOnlyInvs (r.packs.flatten ++ groupRecs g) (groupRecs g))))
+    (hno : hasKey (r.packs.flatten ++ groupRecs g) ⟨.text, t⟩ = false) :
+    step fmt r .commit = (r, .err .check) := by
+  apply refused_of_problems fmt hfmt r g h
+  have hroot : c ∈ rootsOf (r.packs.flatten ++ groupRecs g) (newRevIds (groupRecs g)) := by
+    simp only [rootsOf, List.mem_flatMap]
+    exact ⟨i, hi, by simp [hinv, hc]⟩
+  have hneed : t ∈ neededTexts (r.packs.flatten ++ groupRecs g) (groupRecs g) := by
+    simp only [neededTexts, List.mem_filter, itemsOf, List.mem_flatMap]
+    refine ⟨⟨c, ⟨hroot, by simpa using hnew⟩, by simp [hpage, ht]⟩, ?_⟩
+    simpa [itemsOf] using hnot
+  simp only [inventoryProblems]
+  split
+  · rfl
+  · split
+    · rfl
+    · exact List.any_eq_true.mpr ⟨t, hneed, by simp [hno]⟩
+
+/-! ### the hypotheses of `token_wellformed` hold in every reachable state -/
+
+/-- the resumed packs of an open group are distinct files in `upload/` -/
+def ResumedWf (r : Repo) : Prop :=
+  ∀ g, r.wg = some g → (∀ p ∈ g.resumed, p ∈ r.upload) ∧ g.resumed.Nodup
+
+theorem resumeToks_sound (up : List Pack) (toks : List Tok) (acc ps : List Pack)
+    (h : resumeToks up toks acc = .ok ps) (ha : ∀ p ∈ acc, p ∈ up) (hn : acc.Nodup) :
+    (∀ p ∈ ps, p ∈ up) ∧ ps.Nodup := by
+  induction toks generalizing acc with
+  | nil => simp only [resumeToks, Except.ok.injEq] at h; subst h; exact ⟨ha, hn⟩
+  | cons t toks ih =>
+    cases t with
+    | malformed => simp [resumeToks] at h
+    | pack p =>
+      simp only [resumeToks, List.contains_iff_mem] at h
+      by_cases h1 : p ∈ acc
+      · rw [if_pos h1] at h; cases h
+      · by_cases h2 : p ∈ up
+        · rw [if_neg h1, if_pos h2] at h
+          apply ih (acc ++ [p]) h
+          · intro q hq
+            rcases List.mem_append.mp hq with hq | hq
+            · exact ha q hq
+            · simp only [List.mem_singleton] at hq; subst hq; exact h2
+          · rw [List.nodup_append]
+            refine ⟨hn, by simp, ?_⟩
+            intro a ha' b hb e
+            simp only [List.mem_singleton] at hb
+            subst hb; subst e; exact h1 ha'
+        · rw [if_neg h1, if_neg h2] at h; cases h
+
+theorem resumedWf_step (fmt : Fmt) (r : Repo) (op : Op) (h : ResumedWf r) : ResumedWf (step fmt r op).1 := by
+  have none_wf : ∀ r' : Repo, r'.wg = none → ResumedWf r' := by
+    intro r' hn g' hg'; rw [hn] at hg'; cases hg'
+  cases op with
+  | start =>
+    cases hw : r.wg with
+    | some g =>
+      have : (step fmt r .start).1 = r := by simp only [step, hw]
+      rw [this]; exact h
+    | none =>
+      have : (step fmt r .start).1 = { r with wg := some ⟨[], []⟩ } := by simp only [step, hw]
+      rw [this]
+      intro g' hg'
+      simp only [Option.some.injEq] at hg'
+      subst hg'
+      exact ⟨fun _ hp => (by cases hp), List.nodup_nil⟩
+  | insert rec =>
+    cases hw : r.wg with
+    | none =>
+      have : (step fmt r (.insert rec)).1 = r := by simp only [step, hw]
+      rw [this]; exact h
+    | some g =>
+      have : (step fmt r (.insert rec)).1 =
+          { r with wg := some { g with fresh := g.fresh ++ [rec] }, stale := staleAfter r g rec } := by
+        simp only [step, hw]
+      rw [this]
+      intro g' hg'
+      simp only [Option.some.injEq] at hg'
+      subst hg'
+      exact h g hw
+  | abort =>
+    cases hw : r.wg with
+    | none =>
+      have : (step fmt r .abort).1 = r := by simp only [step, hw]
+      rw [this]; exact h
+    | some g => exact none_wf _ (by simp only [step, hw])
+  | suspend =>
+    cases hw : r.wg with
+    | none =>
+      have : (step fmt r .suspend).1 = r := by simp only [step, hw]
+      rw [this]; exact h
+    | some g =>
+      apply none_wf
+      simp only [step, hw]
+      split <;> rfl
+  | resume toks =>
+    cases hw : r.wg with
+    | some g =>
+      have : (step fmt r (.resume toks)).1 = r := by simp only [step, hw]
+      rw [this]; exact h
+    | none =>
+      cases hres : resumeToks r.upload toks [] with
+      | ok ps =>
+        have : (step fmt r (.resume toks)).1 = { r with wg := some ⟨[], ps⟩ } := by simp only [step, hw, hres]
+        rw [this]
+        intro g' hg'
+        simp only [Option.some.injEq] at hg'
+        subst hg'
+        exact resumeToks_sound r.upload toks [] ps hres (fun _ hp => (by cases hp)) List.nodup_nil
+      | error e =>
+        apply none_wf
+        obtain ⟨e1, acc⟩ := e
+        cases e1 <;> simp only [step, hw, hres]
+  | commit =>
+    cases hw : r.wg with
+    | none =>
+      have : (step fmt r .commit).1 = r := by simp only [step, hw]
+      rw [this]; exact h
+    | some g =>
+      rw [step_commit fmt r g hw]
+      split
+      · exact h
+      · exact none_wf _ rfl
+  | reopen =>
+    apply none_wf
+    cases hw : r.wg with
+    | none => simp only [step, hw]
+    | some g => simp only [step, hw]
+
+/-- **`hin` and `hnd` are invariants**: after ANY operation sequence, from any
+state satisfying them (in particular any state without an open group) -/
+theorem resumed_wf_invariant (fmt : Fmt) (ops : List Op) (r : Repo) (h : ResumedWf r) :
+    ResumedWf (exec fmt r ops) := by
+  induction ops generalizing r with
+  | nil => exact h
+  | cons op ops ih => rw [exec_cons]; exact ih _ (resumedWf_step fmt r op h)
+
+/-- **the bookkeeping hypothesis `hstale` holds for every group opened on a clean
+object**: start (or resume on a new object), then any insertions -/
+theorem stale_tracks_inserts (fmt : Fmt) (r : Repo) (resumed : List Pack) (recs : List Rec)
+    (hw : r.wg = some ⟨[], resumed⟩) (hs : r.stale = []) :
+    let r2 := exec fmt r (recs.map Op.insert)
+    r2.wg = some ⟨recs, resumed⟩ ∧
+    r2.stale.isEmpty = !missingCompressionParent (r2.packs.flatten ++ groupRecs ⟨recs, resumed⟩) recs := by
+  obtain ⟨_, _, h3⟩ := exec_inserts fmt recs r ⟨[], resumed⟩ hw
+  have ok := staleOK_inserts fmt recs r ⟨[], resumed⟩ hw (staleOK_clean r resumed hs)
+  simp only [List.nil_append] at h3 ok
+  exact ⟨h3, stale_isEmpty_of_ok ok⟩
+
+/-! ### suspend / resume any number of times ≡ commit -/
+
+/-- **Suspending and resuming a write group any number of times, inserting
+between the cycles and after the last resume, then committing, is the same as
+inserting everything into one group and committing it**: the same verdict
+(accepted / refused with `BzrCheckError`), the same visible records, and when
+refused nothing is listed in either run.  From any state with a clean
+`Repository` object and no open group, for all record lists `cs` (one per
+cycle; a cycle may insert nothing) and `last`, provided the non-empty chunks are
+pairwise different packs (no record is inserted twice). -/
+theorem suspend_resume_cycles_eq_commit (fmt : Fmt) (r : Repo) (cs : List Pack) (last : Pack)
+    (hw : r.wg = none) (hs : r.stale = []) (hnd : (nonempty cs).Nodup) :
+    let via := step fmt (exec fmt r (.start :: cyclePrefix [] cs last)) .commit
+    let direct := step fmt (exec fmt r (.start :: (cs.flatten ++ last).map Op.insert)) .commit
+    via.2 = direct.2 ∧ visible via.1 = visible direct.1 ∧
+      (direct.2 = .ok →
+        via.1.wg = none ∧ direct.1.wg = none ∧
+        via.1.packs = r.packs ++ nonempty cs ++ (if last.isEmpty then [] else [last])) ∧
+      (direct.2 ≠ .ok → via.1.packs = r.packs ∧ direct.1.packs = r.packs ∧ direct.2 = .err .check) := by
+  intro via direct
+  have hstart : (step fmt r .start).1 = { r with wg := some ⟨[], []⟩ } := by simp only [step, hw]
+  -- the run with the cycles
+  obtain ⟨v1, v2, v3⟩ := exec_cyclePrefix fmt cs last [] { r with wg := some ⟨[], []⟩ } rfl hs
+    (fun _ hp => by cases hp) (fun _ hp => by cases hp) (by simpa using hnd)
+  simp only [List.nil_append] at v2 v3
+  -- the direct run
+  obtain ⟨d1, _, d3⟩ := exec_inserts fmt (cs.flatten ++ last) { r with wg := some ⟨[], []⟩ } ⟨[], []⟩ rfl
+  have d4 := staleOK_inserts fmt (cs.flatten ++ last) { r with wg := some ⟨[], []⟩ } ⟨[], []⟩ rfl
+    (staleOK_clean _ [] hs)
+  simp only [List.nil_append] at d3 d4
+  have hvia : via = step fmt (exec fmt { r with wg := some ⟨[], []⟩ } (cyclePrefix [] cs last)) .commit := by
+    simp only [via, exec_cons, hstart]
+  have hdir : direct = step fmt (exec fmt { r with wg := some ⟨[], []⟩ } ((cs.flatten ++ last).map Op.insert)) .commit := by
+    simp only [direct, exec_cons, hstart]
+  generalize exec fmt { r with wg := some ⟨[], []⟩ } (cyclePrefix [] cs last) = rv at v1 v2 v3 hvia
+  generalize exec fmt { r with wg := some ⟨[], []⟩ } ((cs.flatten ++ last).map Op.insert) = rd at d1 d3 d4 hdir
+  have v1' : rv.packs = r.packs := v1
+  have d1' : rd.packs = r.packs := d1
+  have hall : groupRecs ⟨last, nonempty cs⟩ = cs.flatten ++ last := by
+    simp [groupRecs, flatten_nonempty]
+  have hall' : groupRecs ⟨cs.flatten ++ last, []⟩ = cs.flatten ++ last := by simp [groupRecs]
+  have href : refuses fmt rv ⟨last, nonempty cs⟩ = refuses fmt rd ⟨cs.flatten ++ last, []⟩ := by
+    simp only [refuses, hall, hall', v1', d1']
+    have e1 := stale_isEmpty_of_ok v3
+    have e2 := stale_isEmpty_of_ok d4
+    rw [hall, v1'] at e1
+    rw [hall', d1'] at e2
+    rw [e1, e2, flatten_nonempty]
+    simp only [Bool.not_not, List.flatten_nil, any_append_mcp]
+    have : missingCompressionParent (r.packs.flatten ++ (cs.flatten ++ last)) [] = false := rfl
+    rw [this]
+    cases missingCompressionParent (r.packs.flatten ++ (cs.flatten ++ last)) last <;>
+      cases missingCompressionParent (r.packs.flatten ++ (cs.flatten ++ last)) cs.flatten <;> simp
+  rw [hvia, hdir, step_commit fmt rv _ v2, step_commit fmt rd _ d3, href]
+  by_cases hr : refuses fmt rd ⟨cs.flatten ++ last, []⟩ = true
+  · rw [if_pos hr, if_pos hr]
+    refine ⟨rfl, by simp only [visible, v1', d1'], fun hc => (by cases hc), fun _ => ⟨v1', d1', rfl⟩⟩
+  · rw [if_neg hr, if_neg hr]
+    refine ⟨rfl, ?_, fun _ => ⟨rfl, rfl, by simp only [v1', List.append_assoc]⟩, fun hc => absurd rfl hc⟩
+    have fo : ∀ x : Pack, (if x.isEmpty then ([] : List Pack) else [x]).flatten = x := by
+      intro x; cases x <;> simp
+    simp only [visible, v1', d1', List.flatten_append, fo, flatten_nonempty, List.flatten_nil, List.append_nil,
+      List.append_assoc]
+
 /-- a malformed or unknown token makes `resume` fail, nothing becomes listed
 and no write group is open afterwards -/
 theorem resume_rejects_bad_tokens (fmt : Fmt) (r : Repo) (toks : List Tok) (h : r.wg = none)
@@ -233,5 +580,44 @@ example : (step ⟨true⟩ ⟨[], [], some ⟨[⟨⟨.rev, 7⟩, none, [], [], [
   decide
 example : ∃ t ∈ [Tok.pack [fullRec], Tok.malformed], t = Tok.malformed ∨
     ∃ p, t = Tok.pack p ∧ p ∉ exRepo.upload := ⟨.malformed, by simp, Or.inl rfl⟩
+
+/-! non-vacuity of the refusal theorems: a CHK-format group with revision 1 whose
+inventory (root page 5, which names text 9) arrives piecemeal -/
+
+private def revRec : Rec := ⟨⟨.rev, 1⟩, none, [], [], []⟩
+private def invRec1 : Rec := ⟨⟨.inv, 1⟩, none, [0], [5], []⟩
+private def pageRec : Rec := ⟨⟨.chk, 5⟩, none, [], [], [9]⟩
+private def textRec : Rec := ⟨⟨.text, 9⟩, none, [], [], []⟩
+private def grp (l : Pack) : Repo := ⟨[], [], some ⟨l, []⟩, []⟩
+
+-- hypotheses of `missing_inventory_refused`
+example : (∃ rec ∈ groupRecs ⟨[revRec], []⟩, rec.key = ⟨.rev, 1⟩) ∧
+    (∀ rec ∈ (grp [revRec]).packs.flatten ++ groupRecs ⟨[revRec], []⟩, rec.key ≠ ⟨.inv, 1⟩) := by decide
+example : step ⟨true⟩ (grp [revRec]) .commit = (grp [revRec], .err .check) := by decide
+-- hypotheses of `missing_chk_root_refused`
+example : 1 ∈ newRevIds (groupRecs ⟨[revRec, invRec1], []⟩) ∧
+    invRec ((grp [revRec, invRec1]).packs.flatten ++ groupRecs ⟨[revRec, invRec1], []⟩) 1 = some invRec1 ∧
+    5 ∈ invRec1.roots ∧
+    hasKey ((grp [revRec, invRec1]).packs.flatten ++ groupRecs ⟨[revRec, invRec1], []⟩) ⟨.chk, 5⟩ = false := by
+  decide
+-- hypotheses of `missing_text_refused` (no parent-only inventory is present: nothing is inherited)
+example :
+    let own := (grp [revRec, invRec1, pageRec]).packs.flatten ++ groupRecs ⟨[revRec, invRec1, pageRec], []⟩
+    own.find? (·.key == ⟨.chk, 5⟩) = some pageRec ∧ 9 ∈ pageRec.items ∧
+    5 ∉ rootsOf own (parentOnlyInvs own (groupRecs ⟨[revRec, invRec1, pageRec], []⟩)) ∧
+    9 ∉ itemsOf own (rootsOf own (parentOnlyInvs own (groupRecs ⟨[revRec, invRec1, pageRec], []⟩))) ∧
+    hasKey own ⟨.text, 9⟩ = false := by decide
+example : step ⟨true⟩ (grp [revRec, invRec1, pageRec]) .commit = (grp [revRec, invRec1, pageRec], .err .check) := by
+  decide
+-- … and the complete group is accepted (`commit_accepted_iff`, right to left)
+example : (step ⟨true⟩ (grp [revRec, invRec1, pageRec, textRec]) .commit).2 = .ok := by decide
+-- a text named by a parent-only inventory's page need not be present (stacking): the parent inventory 0
+-- with the same root page is there, revision 0 is not new
+example : (step ⟨true⟩ (grp [revRec, invRec1, pageRec, ⟨⟨.inv, 0⟩, none, [], [5], []⟩]) .commit).2 = .ok := by
+  decide
+-- hypotheses of `suspend_resume_cycles_eq_commit`: three cycles, the second inserts nothing
+example : (nonempty [[revRec, invRec1], [], [pageRec]]).Nodup ∧
+    (exec ⟨true⟩ ⟨[], [], none, []⟩ (.start :: cyclePrefix [] [[revRec, invRec1], [], [pageRec]] [textRec])).wg
+      = some ⟨[textRec], [[revRec, invRec1], [pageRec]]⟩ := by decide
 
 end BreezyVerif.C06
